@@ -7,7 +7,9 @@ CFG = dict(
                "a profile minus itself has every entry 0; CompatibilizeSampleTypes keeps all samples and carries columns by name; integer unit ratios "
                "multiply exactly; a scaled column's total becomes ratio*total +- n/2 (the -normalize clause, partial); ScaleN never loses a non-zero value outside class F4 (refuted inside: scale_n_keep_refuted). Model tied to "
                "fetchProfiles + generateRawReport/TextItems by ~900 (quick) / ~15k (thorough) differential tuples, each also judged by the "
-               "independent checker spec_ok (linearity per entry, finest unit, base total, diff_base_roundtrip = report after the driver's real -proto command + reopen has the same total and entries, self-diff emptiness).",
+               "independent checker spec_ok; 75 (quick) / ~940 (thorough) of them go END TO END through driver.PProf (real parseFlags on a FlagSet, file "
+               "sources, -output / interactive `cmd >file` / web handlers) with the command-line glue modelled (cli_sources, cli_plan, cli_fetch; theorems "
+               "cli_sources_only_drops_leading_binary, cli_sources_keeps_every_profile, cli_plan_passes_flags, cli_fetch_plain_is_fetch_of_all) (linearity per entry, finest unit, base total, diff_base_roundtrip = report after the driver's real -proto command + reopen has the same total and entries, self-diff emptiness).",
     level_note="partial: the end-to-end composition through CompatibilizeSampleTypes/ScaleProfiles (full_statement_fetch_linear), the -normalize "
                "total bound (full_statement_normalize_total) and the -diff_base percentage base (full_statement_diff_base_total) are stated in full "
                "in P_C07.v but only their stage theorems are proved; those clauses are covered by correspondence + the evaluated checker. "
@@ -18,7 +20,10 @@ CFG = dict(
          "table, built by 8 streams (same units; convertible units incl. aliases/plurals; permuted and partially overlapping sample types; the F4 "
          "shape = zeros in scaled columns next to non-zeros in unscaled ones; profile minus itself; sources = k x base under -normalize; "
          "incompatible units / period types / duplicate types (error paths); large and extreme int64 values) x {plain, -base, -diff_base} x "
-         "{-normalize}; every sample_index of the result is reported; the F4 witness is always generated. distinct = sha256 of the input term; "
+         "{-normalize}; every sample_index of the result is reported; the F4 witness is always generated. END-TO-END: 13 deterministic command-line "
+         "shapes (sources named by content hashes / ids, plain names, names needing escaping, the same file twice, an executable first, two "
+         "-diff_base files with -normalize, flag misuse) x {driver.PProf command line, one interactive session, web handlers} + random tuples x "
+         "random file names x the three entry points; sources are files, output is parsed back (proto bytes, top text rows, /top page data). distinct = sha256 of the input term; "
          "non-trivial = at least two profiles and at least two non-zero values",
     spec_what="the combined / subtracted report is not the entry-wise sum / difference of the individual reports (or: common sample type "
               "dropped, unit not the finest, -diff_base percentage base is not the base total, -proto round trip changes the report, profile minus itself not empty)",
@@ -28,8 +33,10 @@ CFG = dict(
                   "boundary with a non-dyadic ratio (class 901) or magnitudes reach 2^50 where float64 is used (class 902) are skipped and counted",
                   "profile.Merge's re-interning of functions/locations/mappings (C03) - generators give all profiles of a tuple one symbol table with pairwise distinct locations and function names",
                   "serialization round trip of the merged profile (C01) - the model treats -proto + reopen as the identity; the implementation's reopened report is compared with it"],
-    assumptions=["merge conservation law (weights additive per stack identity) is proved for the keyed merge of the model (merge_conserves_weights); for the real profile.Merge it is C03's merge_conserves",
+    assumptions=["end-to-end cases: the ObjTool opens exactly the names a case declares as executables; files named on the command line exist and parse; "
+                 "numeric labels are non-zero (a (0, no unit) label does not survive a file: C01); values are printed in the column's own unit (-unit) so the text rows are exact",
+                 "merge conservation law (weights additive per stack identity) is proved for the keyed merge of the model (merge_conserves_weights); for the real profile.Merge it is C03's merge_conserves",
                  "float64 rounding is outside the model (exact rationals; classes 901/902 skipped)",
                  "entries are function names (default granularity), every location has at least one line, function names are unique in a tuple"],
-    shard=120,
+    shard=64,
 )
